@@ -1,4 +1,4 @@
-from specs.common import run, ASSUME_COMMON
+from specs.common import run, memcheck, ASSUME_COMMON
 
 H = "c19_names_views_scopes"
 
@@ -27,6 +27,9 @@ SPEC = {
         run("names", H, "asan", 2816 + 20000, 2816 + 1000000, params={"engine": "names"}),
         run("views", H, "asan", 8000, 400000, params={"engine": "views"}),
         run("scopes", H, "asan", 8000, 400000, params={"engine": "scopes"}),
+        memcheck(H, 3400, 100000, name="memcheck-names", params={"engine": "names"}),
+        memcheck(H, 300, 15000, name="memcheck-views", params={"engine": "views"}),
+        memcheck(H, 300, 15000, name="memcheck-scopes", params={"engine": "scopes"}),
         # real-thread clause of "same identity -> same object": concurrent first requests (TSan + shim)
         run("identity-threads", "c19_identity_threads", "tsan", 400, 20000, sq=4, st=16,
             timeout={"quick": 1500, "thorough": 7200}),
